@@ -4,7 +4,7 @@ from __future__ import annotations
 
 from .. import gen, probe, spec
 from ..probe import violation
-from .common import call
+from .common import call, grow_while_asking
 
 PROP = "C02"
 LEVEL = "exploration"
@@ -22,7 +22,8 @@ DECIDING = [
 RULE = (
     "case = random clash-free record set whose CURIE prefixes do not contain the case's delimiter (often with the "
     "empty prefix as canonical prefix or synonym, case-variant and substring synonyms; one case in six is built with "
-    "Converter.from_rdflib from a graph with a default namespace), delimiters ':', '/', '::', '_', '|'; every known "
+    "Converter.from_rdflib from a graph with a default namespace; one in three is registered record by record while its "
+    "CURIEs are already being expanded), delimiters ':', '/', '::', '_', '|'; every known "
     "prefix, synonym and some unknown ones are combined with identifiers (empty, containing the delimiter, '/', '#', "
     "blank, Unicode). Every expand* / is_curie return is compared with the model (split at first delimiter, resolve, "
     "canonical URI prefix + untouched remainder; expand_all = canonical first then one per URI synonym), and the "
@@ -62,7 +63,19 @@ def run_case(ctx, g, rng):
             i = rng.randrange(len(recs))
             r = recs[i]
             recs[i] = r._replace(prefix="", psyn=r.psyn + (r.prefix,)) if rng.random() < 0.5 else r._replace(psyn=r.psyn + ("",))
-        c, how = gen.build(api, recs, d, rng)
+        if g % 3 == 1:
+            # CURIEs of the final map are already expanded while the map is still being registered
+            strings = [p + d + "1" for r in recs for p in spec.all_p(r)] + [p for r in recs for p in spec.all_p(r)[:1]]
+
+            def ask(cc, s):
+                call(cc.expand, s)
+                call(cc.expand_all, s)
+                call(cc.is_curie, s)
+                call(cc.standardize_prefix, s)
+
+            c, how = grow_while_asking(api, recs, d, rng, ask, strings), "asked-while-growing"
+        else:
+            c, how = gen.build(api, recs, d, rng)
     sp = spec.SpecConverter(recs, d)
     S.counters[f"wl:build:{how}"] += 1
     prefixes = [p for r in recs for p in spec.all_p(r)] + ["nope", "NOPE" + d[:0], rng.choice(gen.UNICODE)]
